@@ -48,6 +48,8 @@ type StructField struct {
 	Type  Type
 	Field *types.Var        // returned by Struct.Field()
 	Tag   reflect.StructTag // returned by Struct.Tag()
+
+	depth int // number of embedded structs crossed to reach the field
 }
 
 // JSONName returns the field name used by Go json package,
